@@ -138,8 +138,8 @@ PROPS = {
                        "The driver compares model and implementation byte for byte and decodes the implementation's stream against the named threads. "
                        "C15_image_refines: the thread-names stage of the whole-image model (Model/Dump.lean) is what the operational writer model produces; "
                        "C15_image_name: in the model's image of any content, record j carries the j-th named thread's id and the location of its name string. System_name (Theorems/System.lean): for the request as one function, the j-th named thread read at enumeration has record j of the thread-names stream with its id and the location of its own name string.",
-        "extra_modules": ["MdwModel.Theorems.System"],
-        "extra_theorems": ["System_name"],
+        "extra_modules": ["MdwModel.Theorems.System", "MdwModel.Theorems.CommName"],
+        "extra_theorems": ["System_name", "CommName_source_agrees", "CommName_exact", "CommName_kernel", "CommName_blank"]
     },
     "C01": {
         "rule": "real dumps of generated live targets (vtarget: 1 … 64 threads blocked in a raw syscall with any mix of named / unnamed / non-ASCII names, "
